@@ -105,7 +105,13 @@ func (x *Exec) report(prop string, obls []*Obligation, reports []*FuncReport, kn
 			lines = append(lines, fmt.Sprintf("ERROR property=%s contract of %s is vacuous: %s", prop, r.Key, r.Vacuity))
 		}
 	}
+	engineErr := false
 	for _, o := range failed {
+		if o.Status == "engine-error" {
+			engineErr = true
+			lines = append(lines, fmt.Sprintf("ERROR property=%s the generated query for %s is ill-formed (verifier bug, not a verdict): %s", prop, o.Name, trunc(firstLine(o.Output), 200)))
+			continue
+		}
 		kf := matchKnown(known, prop, o.Name)
 		if kf != nil && kf.Status == "known" {
 			knownHit[o.Name] = true
@@ -170,7 +176,7 @@ func (x *Exec) report(prop string, obls []*Obligation, reports []*FuncReport, kn
 	if violations > 0 {
 		exit = 1
 	}
-	if vacuous && exit == 0 {
+	if (vacuous || engineErr) && exit == 0 {
 		exit = 2
 	}
 	status := "PASS"
